@@ -2,7 +2,7 @@
    "Token k can be shifted after the first k tokens" is defined through the
    declarative Earley items (an item of the consumed prefix exists), which does
    not depend on any lookahead level; shift_count decides it. *)
-From YV Require Import Prelude EarleySpec Recognizer.
+From YV Require Import Prelude EarleySpec Recognizer Viable Lookahead.
 
 Theorem C06_first_unshiftable_token : forall g axiom w k acc, shift_count g axiom w = Some (k, acc) ->
   (forall j, j <= k -> j <= length w -> count_nonempty (earley_sets g axiom w) > 0 -> exists i, Item g axiom (firstn j w) i) /\
@@ -14,3 +14,34 @@ Print Assumptions C06_first_unshiftable_token.
 Theorem C06_items_are_valid_prefix_items : forall g axiom p i, Item g axiom p i <-> valid g axiom p i.
 Proof. exact Item_iff. Qed.
 Print Assumptions C06_items_are_valid_prefix_items.
+
+(* In a grammar whose nonterminals all derive terminal strings (what strict
+   checking establishes) an item of a prefix exists exactly when some sentence
+   starts with the prefix ... *)
+Theorem C06_viable_prefix : forall g axiom, productive g -> forall p,
+  (exists i, Item g axiom p i) <-> (exists s, sentence g axiom (p ++ s)).
+Proof. exact viable_prefix_iff. Qed.
+Print Assumptions C06_viable_prefix.
+
+(* ... so the count of the decider is the property's "first token such that no
+   sentence starts with the tokens up to and including it". *)
+Theorem C06_first_offending_token : forall g axiom, productive g -> forall w k acc,
+  shift_count g axiom w = Some (k, acc) -> count_nonempty (earley_sets g axiom w) > 0 ->
+  (forall j, j <= k -> j <= length w -> exists s, sentence g axiom (firstn j w ++ s)) /\
+  (k < length w -> ~ exists s, sentence g axiom (firstn (S k) w ++ s)).
+Proof. exact first_offending_token. Qed.
+Print Assumptions C06_first_offending_token.
+
+(* The error token does not depend on the lookahead level: for every filter on
+   scanned / completed items that keeps the items lying on a derivation of the
+   input, and every family of sets between the filtered and the unfiltered
+   items, the set of a prefix has a transition on the next token exactly when
+   some sentence starts with the prefix extended by that token. *)
+Theorem C06_error_token_under_lookahead : forall g axiom (keep : option nat -> item -> Prop),
+  (forall w p i, useful g axiom w p i -> keep (next w p) i) ->
+  forall Sets : list nat -> list nat -> item -> Prop,
+  (forall w p i, ItemF g axiom keep w p i -> Sets w p i) -> (forall w p i, Sets w p i -> Item g axiom p i) ->
+  productive g -> forall p a rest,
+     (exists i be, Sets (p ++ a :: rest) p i /\ after i = T a :: be) <-> (exists s, sentence g axiom ((p ++ [a]) ++ s)).
+Proof. intros g axiom keep Hk Sets Hlo Hhi. exact (proj2 (sandwich g axiom keep Hk Sets Hlo Hhi)). Qed.
+Print Assumptions C06_error_token_under_lookahead.
